@@ -65,6 +65,7 @@ def tus(tier, seed):
         res.append(dict(name='C11_fromf' + ('' if i == 0 else '_%d' % (i // per)), src=body,
                         compiler='clang++' if (tier == 'thorough' and (i // per) % 2 == 1) else 'g++'))
     res += shift_tus(tier, seed)
+    res += typed_tus(tier, seed)
     return res
 
 
@@ -133,6 +134,94 @@ def shift_tus(tier, seed):
     return res
 
 
+# ---------------------------------------------------------------------------------------------------------------
+# typed lines: narrowest types other than int, multi-word storage, static (x) built-in operands
+NW = {'i8': 'signed char', 'u8': 'unsigned char', 'i16': 'short', 'u16': 'unsigned short', 'i32': 'int', 'u32': 'unsigned',
+      'i64': 'long', 'u64': 'unsigned long'}
+BT = {'i8': 'signed char', 'u8': 'unsigned char', 'i16': 'short', 'u16': 'unsigned short', 'i32': 'int', 'u32': 'unsigned',
+      'i64': 'long long', 'u64': 'unsigned long long'}
+
+# (narrowest, mode, tag, d1, e1, d2, e2, d3, e3): in every run.  Multi-word digit counts 128, 129, 160, 192, 200, 255, 256
+# (exact multiples of the limb width included) as operands, as destinations and as the digits of products / sums of
+# narrower operands (64 x 64 -> 128, 96 x 96 -> 192, 80 x 80 -> 160, ...)
+GN_FIXED = [
+    ('i32', 'nrst', 'thr', 64, 0, 64, 0, 128, 0), ('i32', 'tpi', 'sat', 96, -3, 96, 2, 160, 0), ('i32', 'nrst', 'sat', 128, 0, 129, 0, 200, 0),
+    ('i32', 'ninf', 'trp', 160, 0, 32, 0, 192, 0), ('i32', 'nat', 'sat', 200, -4, 55, 0, 255, 0), ('i32', 'nrst', 'thr', 256, 0, 1, 0, 256, 0),
+    ('i32', 'tpi', 'thr', 192, 0, 64, -8, 100, 4),
+    ('u32', 'nrst', 'thr', 8, -2, 8, 1, 6, 0), ('u32', 'tpi', 'sat', 32, 0, 32, 0, 64, 0), ('u32', 'nrst', 'sat', 64, 0, 64, 0, 128, 0),
+    ('u32', 'ninf', 'trp', 100, 0, 60, 0, 160, 0), ('u32', 'nrst', 'thr', 129, 0, 31, -3, 192, 0),
+    ('u8', 'nrst', 'sat', 4, 0, 6, 0, 8, 0), ('u8', 'tpi', 'thr', 8, -1, 8, 0, 16, 0), ('u8', 'nrst', 'sat', 60, 0, 60, 0, 120, 0),
+    ('i8', 'nrst', 'thr', 7, 0, 7, -2, 7, 0), ('i8', 'ninf', 'sat', 64, 0, 64, 0, 128, 0), ('i8', 'nrst', 'trp', 3, 0, 5, 1, 4, 0),
+    ('i16', 'tpi', 'trp', 15, 0, 10, -3, 12, 0), ('i16', 'nrst', 'sat', 80, 0, 80, 0, 160, 0),
+    ('u16', 'nrst', 'thr', 16, 0, 9, -2, 16, 0),
+    ('i64', 'nrst', 'sat', 40, 0, 63, 0, 63, 0), ('i64', 'tpi', 'thr', 100, 0, 127, 0, 128, 0), ('i64', 'nrst', 'thr', 128, 0, 192, 0, 129, 0),
+    ('u64', 'nrst', 'thr', 40, 0, 64, 0, 64, 0), ('u64', 'nrst', 'sat', 128, 0, 100, 0, 129, 0),
+]
+# (narrowest, mode, tag, d, e, built-in type): in every run; negative built-in values against unsigned narrowest types
+MIX_FIXED = [
+    ('u32', 'nrst', 'thr', 8, 0, 'i32'), ('u32', 'nrst', 'thr', 8, -2, 'i32'), ('u32', 'tpi', 'sat', 32, 0, 'i64'), ('u32', 'nrst', 'trp', 20, 3, 'i16'),
+    ('u32', 'ninf', 'sat', 12, 0, 'u32'), ('u8', 'nrst', 'thr', 8, 0, 'i32'), ('u8', 'tpi', 'sat', 5, -1, 'i8'), ('u16', 'nrst', 'thr', 16, 0, 'i64'),
+    ('i32', 'nrst', 'thr', 8, 0, 'i32'), ('i32', 'tpi', 'sat', 31, -3, 'u32'), ('i32', 'nrst', 'sat', 64, 0, 'i64'), ('i32', 'ninf', 'trp', 100, 0, 'u64'),
+    ('i8', 'nrst', 'sat', 7, 0, 'i32'), ('i16', 'nrst', 'thr', 15, 2, 'u8'),
+]
+GN_DIGITS = [1, 2, 5, 8, 16, 31, 32, 33, 63, 64, 65, 100, 127, 128, 129, 160, 192, 200, 255, 256]
+
+
+def typed_grid(tier, seed):
+    rnd = random.Random(seed * 7919 + 5)
+    gn = list(GN_FIXED)
+    n = len(gn) + (6 if tier == 'quick' else 40)
+    rts, ots = list(RT), list(OT)
+    while len(gn) < n:
+        nw = rnd.choice(['i32', 'u32', 'i8', 'u8', 'i16', 'i64', 'u64'])
+        wide = nw in ('i64', 'u64')
+        d1, d2, d3 = rnd.choice(GN_DIGITS), rnd.choice(GN_DIGITS), rnd.choice(GN_DIGITS)
+        e1, e2, e3 = rnd.choice([0, 0, -3, 2, -8]), rnd.choice([0, 0, -2, 1, 5]), rnd.choice([0, 0, -4, 3])
+        if wide:
+            e1 = e2 = e3 = 0
+        # multi-word storage over narrow unsigned limbs does not instantiate everywhere (differences, conversions)
+        if nw in ('u8', 'u16') and (max(d1, d2, d3) > 120 or d1 + d2 > 120):
+            continue
+        # products of two multi-word operands are slow to compile; alignment adds |e1 - e2| digits
+        if not wide and d1 + d2 > 330:
+            continue
+        if abs(e1 - e3) > 12 or abs(e1 + e2 - e3) > 20 or abs(e1 - e2 - e3) > 20:
+            continue
+        c = (nw, rnd.choice(rts), rnd.choice(ots), d1, e1, d2, e2, d3, e3)
+        if c not in gn:
+            gn.append(c)
+    mix = list(MIX_FIXED)
+    n = len(mix) + (4 if tier == 'quick' else 30)
+    while len(mix) < n:
+        nw = rnd.choice(['i32', 'u32', 'i8', 'u8', 'i16', 'u16'])
+        c = (nw, rnd.choice(rts), rnd.choice(ots), rnd.choice([1, 4, 8, 16, 31, 32, 40, 64, 100, 128, 160]), rnd.choice([0, 0, 0, -1, -3, 2, 6]),
+             rnd.choice(list(BT)))
+        if c not in mix:
+            mix.append(c)
+    return gn, mix
+
+
+def typed_tus(tier, seed):
+    gn, mix = typed_grid(tier, seed)
+    res = []
+
+    def tu(name, lines, idx, comp):
+        body = '#include "%s"\nint main(){ install(); Rng rng(seed_from_env()+%d);\n' % (__file__.replace('.py', '.h'), 9000 + idx)
+        body += ''.join(lines) + '}\n'
+        res.append(dict(name=name, src=body, compiler=comp))
+
+    per = 2
+    for i in range(0, len(gn), per):
+        lines = ['  gn<%s, %s, %s, %d, %d, %d, %d, %d, %d>(rng);\n' % (RT[r], OT[o], NW[nw], d1, e1, d2, e2, d3, e3)
+                 for (nw, r, o, d1, e1, d2, e2, d3, e3) in gn[i:i + per]]
+        tu('C11_typed_%d' % (i // per), lines, i, 'clang++' if (tier == 'thorough' and (i // per) % 4 == 1) else 'g++')
+    per = 3
+    for i in range(0, len(mix), per):
+        lines = ['  mixed<%s, %s, %s, %d, %d, %s>(rng);\n' % (RT[r], OT[o], NW[nw], d, e, BT[bt]) for (nw, r, o, d, e, bt) in mix[i:i + per]]
+        tu('C11_mixed_%d' % (i // per), lines, 300 + i, 'clang++' if (tier == 'thorough' and (i // per) % 3 == 1) else 'g++')
+    return res
+
+
 RULE = ("per compiled (rounding tag, overflow tag, three (digits, exponent) formats): all values when digits <= 5, otherwise the boundary lattice of "
         "the declared range plus seeded random values, cross-multiplied for binary operators and two-step histories; construction from floating point: "
         "digit counts at, below and above the 24 / 53 / 64 digits the formats hold, the declared limits and the powers of two they round to with "
@@ -141,4 +230,10 @@ RULE = ("per compiled (rounding tag, overflow tag, three (digits, exponent) form
         "+-2^j for every j (x = -2^(D-k) with count k included), neighbours and seeded random values; run-time counts 0, 1, 2, 3, D/2, "
         "D-2 .. D+2, storage width -2 .. +1, twice the width, 1000, INT_MAX and the counts that land |x| 2^k on 2^D, as built-in int, as "
         "a static_integer count and in <<= / >>=; cnl::constant counts 0, 1, D/2, D-1, D and those landing D + K on 31 / 32 / 63 / 64 digits "
-        "(static_integer), of either sign (static_number), also as <<= / >>=; non-trivial = x and count non-zero")
+        "(static_integer), of either sign (static_number), also as <<= / >>=; non-trivial = x and count non-zero; typed lines (values in hex, "
+        "results read limb by limb): narrowest types i8 u8 i16 u16 i32 u32 i64 u64 x digit counts 1 .. 256 incl. the multi-word counts 128, 129, "
+        "160, 192, 200, 255, 256 as operands, destinations and as products / sums of narrower operands (64 x 64, 96 x 96, 80 x 80, ...): "
+        "+ - * /, six comparisons, unary minus, conversion, histories (mul_add, sub_div_cvt, mul_div, mul_sub, mul_gt, mul_cvt, sub_cvt) on the "
+        "boundary lattice of the declared range (non-negative under an unsigned narrowest type) + seeded random values; static (x) built-in "
+        "operands (i8 .. u64, lattice of the built-in type incl. negative values and the limits) on either side of + - * / and the six "
+        "comparisons, bare static_integer and static_number with exponents of either sign, against the by-value oracle")
